@@ -838,6 +838,10 @@ func (w *w4) opHTTPMultipart(id, seq int, op simrt.Op, rr *rand.Rand) {
 	if rr.IntN(12) == 0 {
 		_ = w.httpDo(w.lfs.handleHTTPUploadSession, http.MethodDelete, "/lfs/uploads/"+initResp.UploadID, nil, nil, 0)
 		w.sim.Probe("c32.multipart-aborted")
+	} else if rr.IntN(12) == 0 {
+		// the bucket's lifecycle rule ends incomplete multipart uploads behind the proxy's back
+		w.s3api.lifecycleAbortIncomplete()
+		w.sim.Probe("c32.multipart-aborted-by-lifecycle")
 	}
 	rec = w.httpDo(w.lfs.handleHTTPUploadSession, http.MethodPost, "/lfs/uploads/"+initResp.UploadID+"/complete", nil, bytes.NewReader(js), int64(len(js)))
 	if simrt.Dying() {
